@@ -136,7 +136,16 @@ POOL_ctx* POOL_create_advanced(size_t numThreads, size_t queueSize,
         error |= ZSTD_pthread_mutex_init(&ctx->queueMutex, NULL);
         error |= ZSTD_pthread_cond_init(&ctx->queuePushCond, NULL);
         error |= ZSTD_pthread_cond_init(&ctx->queuePopCond, NULL);
-        if (error) { POOL_free(ctx); return NULL; }
+        if (error) {
+            /* nothing has been started yet and customMem is not recorded yet: release by hand
+             * (POOL_free would lock a mutex that may not exist and free through a zeroed customMem) */
+            ZSTD_pthread_mutex_destroy(&ctx->queueMutex);
+            ZSTD_pthread_cond_destroy(&ctx->queuePushCond);
+            ZSTD_pthread_cond_destroy(&ctx->queuePopCond);
+            ZSTD_customFree(ctx->queue, customMem);
+            ZSTD_customFree(ctx, customMem);
+            return NULL;
+        }
     }
     ctx->shutdown = 0;
     /* Allocate space for the thread handles */
